@@ -120,6 +120,14 @@ def container_variants(term, ns, v):
         d = collections.defaultdict(list)
         d.update(v)
         yield d
+        # a subclass instance in KEY position
+        if len(v) == 1:
+            (k, x), = v.items()
+            for sk in subclass_variants(term.args[0], ns, k):
+                try:
+                    yield {sk: x}
+                except TypeError:
+                    pass
     if term.kind == "list" and term.abc is not list and type(v) is list:
         yield tuple(v)
         yield collections.deque(v)
@@ -128,8 +136,8 @@ def container_variants(term, ns, v):
 def nonmembers(lit):
     """values of the same leaf kinds that are not members; membership is typed (typing distinguishes Literal[1] from
     Literal[True]): 1, 1.0 and True are three different candidates"""
-    cands = [3, 0, 1, 2, "z", "", "2", "a", 2.5, 1.0, 0.0, False, True, None]
-    return [c for c in cands if not any(c == m and type(c) is type(m) for m in lit.members)]
+    cands = [3, 0, 1, 2, "z", "", "2", "a", 2.5, 1.0, 0.0, False, True, None, [1], {"a": 1}, {1}, bytearray(b"a")]
+    return [c for c in cands if not any(type(c) is type(m) and c == m for m in lit.members)]
 
 
 def judge(prog, term, v, res, case, label="v"):
@@ -248,6 +256,28 @@ def run_term(setname, i, term, tier, res, only_vi=None):
                     a = term.args[0]
                     for sv in subclass_variants(a, ns, next(iter(v))):
                         judge(prog, term, type(v)([sv]), res, case, label=f"member-subclass:{type(sv).__name__}")
+        # second pass ("is the same on every call"): after every other value of this program went through the routine
+        if only_vi is None and (term.has_union or term.has_opt) and term.depth <= 1:
+            import typelib
+
+            from ..kernel import cold as _cold
+
+            warm = {}
+            for vi, v in enumerate(vals):  # the routine has by now seen every value of the program
+                o = call(bm.val, v)
+                if o.ok:
+                    warm[vi] = o.val
+            for vi in sorted(warm):
+                _cold.clear_all()
+                fresh = call(typelib.marshaller, prog.ann)
+                o = call(fresh.val, vals[vi]) if fresh.ok else fresh
+                res.evals += 1
+                if not o.ok or not same(o.val, warm[vi]):
+                    res.violation(f"C06/determinism-across-calls/{E.shallow_kind(term)}",
+                                  f"marshal({short(vals[vi], 60)}, t={term.src}) gives {short(o.val if o.ok else o.exc, 60)} from a freshly built routine but "
+                                  f"{short(warm[vi], 60)} from the routine that has marshalled the program's other values",
+                                  {"set": setname, "i": i, "vi": None, "T": term.src})
+                    break
         # Literal positions: non-members must raise ValueError
         if term.kind == "literal":
             for nm in nonmembers(term):
